@@ -321,14 +321,6 @@ impl Sim {
         }
         let forked = self.forked;
         obs.probe(&format!("tx:{op}:{class}"));
-        if let Ok(pat) = std::env::var("GLV_DBG") {
-            if format!("{op}:{class}") == pat {
-                eprintln!("DBG step={} {role} {op} -> {class} panic={:?} rule={:?} failed_ix={:?}", obs.cur_step, out.panic, out.runtime_rule, out.failed_ix);
-                if std::env::var("GLV_DBG_VIOL").is_ok() {
-                    obs.violation(P45, "dbg", pat.clone(), String::new());
-                }
-            }
-        }
         obs.event(|| format!("{}{role} {op} -> {class}", if forked { "  [fork] " } else { "" }));
         out
     }
@@ -515,6 +507,9 @@ impl Sim {
             return;
         }
         let signer = self.who(by);
+        if by != Who::Keeper || market_of.is_some_and(|o| o != m) {
+            obs.fault("byzantine_insert");
+        }
         let ix = match market_of {
             Some(o) if o != m => {
                 let mut ix = glvx::insert_glv_market_mixed_ix(&self.d, &self.k, m, o);
@@ -640,6 +635,12 @@ impl Sim {
             ActionKind::Shift => "execute_glv_shift",
         };
         let state_before = glvx::action_state_of(&self.w, &a.key, a.kind).unwrap_or(255);
+        if state_before != 0 {
+            obs.fault("duplicate_or_late_execute");
+        }
+        if by != Who::Keeper {
+            obs.fault("byzantine_executor");
+        }
         let pre = self.w.clone();
         let pre_balances = self.balances();
         let pre_supply = self.glv_supply();
@@ -668,6 +669,9 @@ impl Sim {
         let post_supply = self.glv_supply();
         if state_after == 2 {
             obs.probe("soft_cancelled");
+            if self.w.clock.unix_timestamp - read_updated_at(&pre, &a) > 3600 {
+                obs.fault("request_expired");
+            }
             self.check_cancel_no_touch(obs, &pre, &a, pre_supply, post_supply);
             return;
         }
@@ -894,6 +898,13 @@ impl Sim {
             CloseBy::Stranger => "stranger",
         };
         let state = glvx::action_state_of(&self.w, &a.key, a.kind).unwrap_or(255);
+        match (by, state) {
+            (CloseBy::Stranger, _) => obs.fault("byzantine_closer"),
+            (CloseBy::Keeper, 0) if a.kind != ActionKind::Shift => obs.fault("keeper_closes_pending"),
+            (CloseBy::Keeper, _) if a.kind != ActionKind::Shift => obs.fault("owner_crash_keeper_closes"),
+            (CloseBy::Owner, 0) => obs.fault("owner_cancels_pending"),
+            _ => {}
+        }
         let is_owner = executor == a.owner;
         let supply_before = self.glv_supply();
         let mk = self.d.markets[a.market].clone();
@@ -1228,6 +1239,9 @@ impl Sim {
                 let secs = *secs as i64;
                 self.w.advance((secs as u64 * 5 / 2).max(1), secs);
                 obs.sim_seconds += secs as u64;
+                if secs >= 3600 {
+                    obs.fault("clock_jump");
+                }
                 if *repost {
                     self.post_prices(obs);
                 } else {
@@ -1333,6 +1347,16 @@ impl Sim {
             }
         }
     }
+}
+
+fn read_updated_at(w: &World, a: &Act) -> i64 {
+    use gmsol_store::states::common::action::Action;
+    match a.kind {
+        ActionKind::Deposit => read_pod::<gmsol_store::states::GlvDeposit>(w, &a.key).map(|x| x.header().updated_at()),
+        ActionKind::Withdrawal => read_pod::<gmsol_store::states::glv::GlvWithdrawal>(w, &a.key).map(|x| x.header().updated_at()),
+        ActionKind::Shift => read_pod::<gmsol_store::states::glv::GlvShift>(w, &a.key).map(|x| x.header().updated_at()),
+    }
+    .unwrap_or(i64::MAX)
 }
 
 /// The committed logical state of a market: every pool (long, short), every clock, token balances,
@@ -1596,6 +1620,13 @@ impl Scenario for GlvHistory {
             sim.invariants(obs);
             if obs.should_stop() {
                 return;
+            }
+            if i + 1 == steps.len() {
+                for a in &sim.acts {
+                    if a.state == 0 {
+                        obs.fault("action_left_pending");
+                    }
+                }
             }
             let gm = sim.glv_markets();
             obs.fingerprint(&[
